@@ -2,6 +2,7 @@
 line tracer that kills the process (os._exit, no cleanup, no atexit - like
 SIGKILL) when the k-th line of the selected conductor modules is about to
 execute; the parent then inspects the disk."""
+import gc
 import os
 import pickle
 import sys
@@ -70,10 +71,12 @@ def run_in_child(fn, k=None, only=None):
     r, w = os.pipe()
     sys.stdout.flush()
     sys.stderr.flush()
+    gc.collect()           # finalisers of garbage from earlier runs must not run (and be counted) inside the child
     pid = os.fork()
     if pid == 0:
         code = 99
         try:
+            gc.disable()
             os.close(r)
             try:
                 import ctypes
